@@ -243,5 +243,14 @@ func opStmtFps(t Task) Result {
 	}
 	res["fps"] = fps
 	res["tree_fp"] = fingerprint(p.root, fpOpts{tokens: true, positions: true, values: true})
+	// a node object reachable along two paths (C12)
+	seen := map[ast.Vertex]bool{}
+	w := &walker{enter: func(nn ast.Vertex, ki *kinfo, parent ast.Vertex, role string) {
+		if seen[nn] {
+			res["shared"] = ki.name + " as " + role + " of " + kindName(parent)
+		}
+		seen[nn] = true
+	}}
+	w.walk(p.root, nil, "root")
 	return res
 }
